@@ -592,10 +592,10 @@ func postprocessParsed(lookup objLookup) {
 			for _, c := range l[1:] {
 				words := strings.Split(c.parsed, " ")
 				// Strip (interface-name)
-				if words[2][0] == '(' {
+				if strings.HasPrefix(words[2], "(") {
 					copy(words[2:], words[3:])
 				}
-				if words[2] == "host" {
+				if words[2] == "host" && len(words) > 3 {
 					words[3] = "x"    // Change to value generated by Netspoc.
 					words = words[:4] // Strip key, timeout
 					ref := ""
